@@ -73,6 +73,9 @@ fn main() {
             }
             std::process::exit(driver::run_check(&a));
         }
+        "exec-plan" => {
+            std::process::exit(driver::exec_plan_from_stdin());
+        }
         "replay" => {
             if args.len() < 3 {
                 usage();
